@@ -124,7 +124,7 @@ def run(chk):
     # (one variable read at several places and in several statements; payments split in steps)
     alias_profile = {"mon_var": 0.85, "var_reuse": 0.9, "acct_var": 0.6, "num_var": 0.5, "send": 0.8, "sendall": 0.1,
                      "save": 0.05, "depth": 2, "ddepth": 1, "stmts_max": 4, "small_values": True, "exact_balance": 0.5,
-                     "infix": 0.03, "big": 0.25}
+                     "infix": 0.03, "big": 0.25, "lookalike_names": 0.25, "aligned_shape": 0.1}
     cases_a, gens_a = P.make_cases(pid, seed + 104729, max(300, n // 2), start=5_000_000, profile_override=alias_profile)
     gos_a = runner.run_go(cases_a)
     models_a = P.run_model(cases_a, gos_a)
@@ -137,7 +137,7 @@ def run(chk):
     # of the balance queries, values cached by an origin before the statements are scanned, bounded overdrafts on
     # negative balances
     multi_profile = {"lookalike_names": 0.35, "multi_asset": True, "origins": 0.7, "neg_balance": 0.3, "overdraft_bounded": 0.4, "stmts_max": 4,
-                     "depth": 2, "ddepth": 1, "acct_var": 0.2, "save": 0.1}
+                     "depth": 2, "ddepth": 1, "acct_var": 0.2, "save": 0.15, "negative_amount": 0.08}
     cases_m, gens_m = P.make_cases(pid, seed + 7919, max(300, n // 2), start=7_000_000, profile_override=multi_profile)
     gos_m = runner.run_go(cases_m)
     models_m = P.run_model(cases_m, gos_m)
@@ -434,6 +434,20 @@ def extra_C11(chk, cases, gens, gos, stats):
                 # (an earlier declaration may fail first with its own error; what must not happen is a result)
                 if off["outcome"] == "ok":
                     fails.append((sub[2 * i + 1], off, None, ["overdraft() ran without its feature flag"]))
+    # entries of the variables map for names the script does not declare are never read (`run_ignores_undeclared_var`)
+    xsub = [dict(c, id=i, vars=dict({"zz_undeclared": "not a value", "": "x", "remaining": "1/0"}, **(c.get("vars") or {})), perStmt=False)
+            for i, c in enumerate(cases[:chk.size(600, 6000)])]
+    xsub = [c for c in xsub if not any(("$" + k) in c["script"] for k in ("zz_undeclared", "remaining"))]
+    xouts = runner.run_go([P_strip(c) for c in xsub]) if xsub else []
+    stats["undeclared_variable_runs"] = len(xsub)
+    for c, xo in zip(xsub, xouts):
+        o = gos[c["id"]]
+        if "go" in xo and "go" in o:
+            a, b = runner.go_projection(o["go"]), runner.go_projection(xo["go"])
+            a.pop("queries", None)
+            b.pop("queries", None)
+            if a != b:
+                fails.append((c, xo["go"], {"without": a}, ["entries of the variables map for undeclared names changed the result"]))
     # several malformed / missing variable values at once, many runs: which failure is reported must not depend on
     # the order in which a map happens to be walked (the model reports the first declaration that fails)
     import random as _random
